@@ -48,31 +48,12 @@ let result_string = function
   | RRef (Some _) -> "bound" | RRef None -> "unbound" | RUnit -> "-"
 
 
-(* proxy chains  r[p1][p2]...[pn] : every level is the model's own step (get, or create-as-null when absent); the chain
-   itself is not a new operation of the model.  path element: `K key` or `I index` *)
-type pel = K of n list | I of int
+(* proxy chains  r[p1][p2]...[pn] : Model/Chain.v (every level is the model's own step; the chain is a sequence of steps) *)
 let path_string (p : pel list) =
-  String.concat "/" (List.map (function K k -> "k" ^ hex_of_bytes k | I i -> "i" ^ string_of_int i) p)
+  String.concat "/" (List.map (function PKey k -> "k" ^ hex_of_bytes k | PIdx i -> "i" ^ string_of_int (int_of_nat i)) p)
 let path_of_string (s : string) : pel list =
-  List.map (fun t -> if t.[0] = 'k' then K (bytes_of_hex (String.sub t 1 (String.length t - 1)))
-                     else I (int_of_string (String.sub t 1 (String.length t - 1)))) (String.split_on_char '/' s)
-let get_level w r = function
-  | K k -> (match step w (OGetMember (r, k)) with (_, RRef x) -> x | _ -> None)
-  | I i -> (match step w (OGetElem (r, nat_of_int i)) with (_, RRef x) -> x | _ -> None)
-(* getOrAddMember / getOrAddElement: the existing child, else create it holding null (no effect on a value of the wrong kind) *)
-let get_or_add_level w r pe =
-  match get_level w r pe with
-  | Some e -> (w, Some e)
-  | None ->
-      let (w', _) = (match pe with K k -> step w (OSetMember (r, k, SNull)) | I i -> step w (OSetElem (r, nat_of_int i, SNull))) in
-      (w', get_level w' r pe)
-let chain_get w r path : world * result =
-  (w, RRef (List.fold_left (fun cur pe -> match cur with None -> None | Some id -> get_level w id pe) (Some r) path))
-let chain_set w r path x : world * result =
-  let (w', cur) = List.fold_left (fun (w, cur) pe -> match cur with None -> (w, None) | Some id -> get_or_add_level w id pe) (w, Some r) path in
-  match cur with
-  | Some e -> step w' (OSet (e, x))
-  | None -> (w, RBool (set_on_unbound x))
+  List.map (fun t -> if t.[0] = 'k' then PKey (bytes_of_hex (String.sub t 1 (String.length t - 1)))
+                     else PIdx (nat_of_int (int_of_string (String.sub t 1 (String.length t - 1))))) (String.split_on_char '/' s)
 
 (* profile: 0 = general, 1 = no document-level ops (for fault enumeration), 2 = small *)
 let gen_history (seed : int) (nops : int) (ndocs : int) (profile : int) : string =
@@ -103,7 +84,7 @@ let gen_history (seed : int) (nops : int) (ndocs : int) (profile : int) : string
     let x = rand_scalar () in
     let nhd = new_handle () in
     let custom : (world -> world * result) option ref = ref None in
-    let rand_path () = List.init (2 + rand 2) (fun _ -> if rand 3 = 0 then I (pick [0; 1; 2]) else K (pick keys)) in
+    let rand_path () = List.init (2 + rand 2) (fun _ -> if rand 3 = 0 then PIdx (nat_of_int (pick [0; 1; 2])) else PKey (pick keys)) in
     let (text, o, bind) : string * op * int option =
       if profile <> 1 && rand 9 = 0 then begin
         (* a chain of proxies, written or read in one expression *)
